@@ -61,7 +61,7 @@ BUDGETS = [1, 2, 3, 5, 12]
 PROBLEMS = ["ineq", "quad", "eq", "nan", "nan_ineq", "raise", "linear", "mixed", "milp", "biobj"]
 DEVIATION_PROBLEMS = ["ineq", "quad", "linear", "milp", "biobj", "mixed"]  # quick: first two accepted of these
 SUB_MAX_ITER = 4  # budget of one augmented-Lagrangian sub-optimization
-CASE_TIMEOUT = 60
+CASE_TIMEOUT = 30
 
 # value alphabets (rotated by VERIF_SEED; the enumerated structure never changes)
 TABLES = [
@@ -137,17 +137,30 @@ class UserBoom(ValueError):
     """The exception raised by the user's constraint in the problem ``raise``."""
 
 
+class Runaway(Exception):
+    """Raised by the harness functions when a run has made 40 N + 100 real evaluations: the budget is lost
+    (the run is aborted instead of waiting for a convergence that may never come)."""
+
+
 class Probe:
     def __init__(self, raise_at=None):
         self.calls = []  # (function name, "f"|"j", bytes of the physical point, is FD probe)
         self.raise_at = raise_at  # the constraint raises at its k-th distinct (non-probe) point
         self.g_points = []
         self.raised = []
+        self.cap = None  # maximum number of real calls in the current execution
+        self.n_real = 0
+        self.runaway = False
 
     def rec(self, fname, kind, x):
         x = np.array(x, dtype=float)
         fd = _in_fd()
         self.calls.append((fname, kind, x.tobytes(), fd))
+        if not fd:
+            self.n_real += 1
+            if self.cap is not None and self.n_real > self.cap:
+                self.runaway = True
+                raise Runaway(f"more than {self.cap} real evaluations in one execution")
         return x, fd
 
     def maybe_raise(self, x, fd):
@@ -419,6 +432,7 @@ def execute_once(problem, probe, info, run, T, pname):
     keys0 = _keys(db)
     mark = len(probe.calls)
     obs["counter_before"] = problem.evaluation_counter.current
+    probe.cap, probe.n_real, probe.runaway = 40 * n + 100, 0, False
     result = exc = None
     try:
         result = lib.execute(problem, **settings)
@@ -452,6 +466,7 @@ def execute_once(problem, probe, info, run, T, pname):
         obs["exception"] = f"{type(exc).__name__}: {msg[:300]}"
         obs["exc_type"] = type(exc).__name__
         obs["exc_is_user"] = _chain_has(exc, probe.raised)
+        obs["runaway"] = probe.runaway
         import traceback
 
         tb = traceback.extract_tb(exc.__traceback__)
@@ -474,6 +489,7 @@ def execute_once(problem, probe, info, run, T, pname):
         obs["f_opt"] = result.f_opt
         obs["is_feasible"] = result.is_feasible
         obs["optimum_index"] = result.optimum_index
+    obs["functions_normalized"] = bool(getattr(problem.objective, "expects_normalized_inputs", False))
     obs["objective_name"] = problem.objective.name
     obs["std_objective_name"] = problem.standardized_objective_name
     # leave no listener of a crashed run behind (user exceptions skip the library's own clean-up)
@@ -518,6 +534,8 @@ def family(kind, algo):
 
 
 def stop_class(obs):
+    if obs.get("runaway"):
+        return "runaway"
     if obs.get("exception"):
         return "user-exception" if obs.get("exc_is_user") else ("library-error" if obs.get("library_error") else "exception")
     m = obs.get("message")
@@ -578,8 +596,12 @@ def judge(obs, run, pname, info, history="single"):
         inv = "budget-points" if use_db else "budget-points-no-database"
         if n_pts > budget + extra_pts:
             v(inv, f"the original functions were called at {n_pts} distinct points for max_iter={n}" + (f" (+{extra_pts} sub-problem entries)" if extra_pts else "") + f"; {n_new} new database entries")
-        elif n_all > budget + extra_pts and use_db:
-            v("budget-points-with-jacobians", f"original functions and derivatives were called at {n_all} distinct points for max_iter={n}")
+        elif use_db:
+            # derivatives asked at a point recorded by an earlier execution create nothing: only unrecorded points count
+            oldb = {np.asarray(k_, dtype=float).tobytes() for k_ in obs["old_keys"]}
+            n_all_new = len([p_ for p_ in dict.fromkeys(obs["func_points"] + obs["jac_points"]) if p_ not in oldb])
+            if n_all_new > budget + extra_pts:
+                v("budget-points-with-jacobians", f"original functions and derivatives were called at {n_all_new} distinct unrecorded points for max_iter={n}")
     else:
         n_samples = len(obs["samples"])
         if n_new > n_samples:
@@ -587,7 +609,9 @@ def judge(obs, run, pname, info, history="single"):
 
     # ---- exceptions / result --------------------------------------------------------------------
     exc = obs.get("exception")
-    if exc:
+    if exc and obs.get("runaway"):
+        pass  # aborted by the harness; the budget invariants above have fired
+    elif exc:
         if obs.get("exc_is_user"):
             if kind == "doe" and serial:
                 v("doe-failing-sample-aborts", f"the user's ValueError escaped from the DOE: {exc}")
@@ -627,7 +651,9 @@ def judge(obs, run, pname, info, history="single"):
     if kind == "doe" and not exc:
         samples = obs["samples"]
         old = obs["old_keys"]
-        normalized = st["normalize"] == "flip"  # the DOE default is an unnormalized design space
+        # the functions take normalized inputs when this DOE asked for it (its default is an unnormalized design
+        # space) or when an earlier execution preprocessed them so
+        normalized = st["normalize"] == "flip" or obs.get("functions_normalized", False)
         tol = 8 * np.finfo(float).eps * float(max(np.abs(info["lb"]).max(), np.abs(info["ub"]).max(), (info["ub"] - info["lb"]).max())) if normalized else 0.0
 
         def same(a, b):
@@ -660,9 +686,12 @@ def judge(obs, run, pname, info, history="single"):
                     + (f" (failing sample {failing.tolist()} set aside)" if failing is not None else ""),
                 )
             else:
-                for k, entry in zip(obs["new_keys"], obs["new_entries"]):
+                stopped = prefix_allowed and stop_class(obs) in ("time", "max-iter")
+                for j_, (k, entry) in enumerate(zip(obs["new_keys"], obs["new_entries"])):
                     if failing is not None and np.array_equal(k, failing):
                         continue
+                    if stopped and j_ == len(obs["new_keys"]) - 1:
+                        continue  # the criterion fires at the first store of an entry: the last one may be partial
                     missing = [nm for nm in info["names"] if nm not in entry]
                     if missing:
                         v("doe-entry-incomplete", f"sample {k.tolist()} has no value for {missing}")
@@ -673,9 +702,12 @@ def judge(obs, run, pname, info, history="single"):
             # D2: exactly one call of every original function per distinct evaluated sample
             rows = [r for r in samples]
             evaluated = obs["new_keys"] if use_db else rows
-            for pt in evaluated:
+            last_partial = use_db and prefix_allowed and stop_class(obs) in ("time", "max-iter")
+            for j_, pt in enumerate(evaluated):
                 if tol:
                     continue  # call points are compared bitwise only in the unnormalized mode
+                if last_partial and j_ == len(evaluated) - 1:
+                    continue
                 want = 1 if use_db else sum(1 for r in rows if np.array_equal(r, pt))
                 for nm in info["names"]:
                     got_n = obs["func_mult"].get((nm, np.array(pt, dtype=float).tobytes()), 0)
@@ -833,6 +865,8 @@ def _check_case(case, tally):
         if not run["settings"]["reset"] and i > 0:
             remaining = max(0, run["N"] - obs["counter_before"])
             tally.count("no-reset:" + ("within-remaining-budget" if n_new <= remaining else "beyond-remaining-budget"))
+        if i > 0 and cls == "kkt" and run["settings"]["stop"] != "kkt":
+            tally.count("second-run-stopped-by-the-kkt-listener-of-the-first-run")
         if cls == "no-message":
             tally.sets.setdefault("no-message", set()).add(algo)
         if obs.get("library_error"):
@@ -945,6 +979,10 @@ def run(ctx):
                         for reset in (True, False):
                             st2 = dict(DEFAULTS, reset=reset)
                             yield {"problem": pname, "table": table, "runs": [make_run(k1, a1, n1, DEFAULTS), make_run(k2, a2, n2, st2)]}
+                    if a1 in kkt_algos:
+                        # the KKT checker of the first execution is a store listener that the driver never removes
+                        st1 = dict(DEFAULTS, stop="kkt")
+                        yield {"problem": pname, "table": table, "runs": [make_run(k1, a1, budgets[0][0], st1), make_run(k2, a2, budgets[0][1], DEFAULTS)]}
 
     pmap(check_case, phase3(), tally, jobs=ctx.jobs, chunk=10, timeout=CASE_TIMEOUT)
 
